@@ -108,6 +108,9 @@ def plin_plan(tier):
          ("povm", "Q1", 3, [("tab", 2)], (None,), 60),
          ("gate", "Q1", None, [("exact",), ("far",), ("st", 2, 2)], (None, 1e-8), 16),
          ("gate", "Q1", None, [("tab", 1)], (None,), 64),
+         ("gate", "Q1", None, [("exact",), ("far",), ("st", 2, 2)], ("trunc:1e-9",), 16),
+         ("state", "Q1", None, [("exact",), ("far",), ("tab", 1)], ("trunc:1e-9",), 40),
+         ("povm", "Q1", 2, [("exact",), ("far",), ("tab", 1)], ("trunc:1e-9",), 40),
          ("mprocess", "Q1", 2, [("exact",), ("far",), ("st", 4, 2)], (None,), 16),
          ("state", "Q3", None, [("exact",), ("far",), ("tab", 1)], (None, 1e-8), 40),
          ("state", "Q3", None, [("tab", 2)], (None,), 60),
@@ -185,6 +188,7 @@ def lossmin_plan(tier):
          ("povm", "Q1", 3, [("exact",), ("st", 3, 3)], "light", 9),
          ("gate", "Q1", None, [("exact",), ("far",), ("st", 2, 2)], "reduced", 8),
          ("mprocess", "Q1", 2, [("exact",), ("st", 2, 1)], "light", 4),
+         ("mprocess", "Q1", 3, [("exact",)], "light", 4),
          ("state", "Q3", None, [("exact",), ("far",), ("tab", 1)], "fast", 27),
          ("povm", "Q3", 2, [("exact",), ("st", 2, 2)], "light", 8),
          ("gate", "Q3", None, [("exact",), ("st", 2, 1)], "light", 4)]
